@@ -1,0 +1,33 @@
+//go:build verif
+
+package tokenizer
+
+// VerifState is a snapshot of the unexported tokenizer state, for the verification harness only.
+type VerifState struct {
+	HasInput    bool
+	PosIndex    int
+	PosLine     int
+	PosColumn   int
+	Line        int
+	NLineStarts int
+	Dialect     string
+	HasLogger   bool
+	NComments   int
+	HasKeywords bool
+}
+
+// VerifState returns a snapshot of the tokenizer's internal state.
+func (t *Tokenizer) VerifState() VerifState {
+	return VerifState{
+		HasInput:    t.input != nil,
+		PosIndex:    t.pos.Index,
+		PosLine:     t.pos.Line,
+		PosColumn:   t.pos.Column,
+		Line:        t.line,
+		NLineStarts: len(t.lineStarts),
+		Dialect:     string(t.dialect),
+		HasLogger:   t.logger != nil,
+		NComments:   len(t.Comments),
+		HasKeywords: t.keywords != nil,
+	}
+}
